@@ -490,6 +490,8 @@ def run(P, R, L):
     K.pair9_boundary_inputs(P, R, L)
     K.pair9_levels(P, R, L)
     K.bundle_no_assertion_trips(P, R, L)
+    K.pair16_followers_always_completed(P, R, L)
+    R.clause("PAIR-16", "followers are marked complete whatever the group's result (their wait loop has no other exit)")
     R.clause("ORD-19", "force_level_compaction withdraws its request only after the background work finished (the compaction thread unwraps the slot at the end of the compaction it was asked for)")
     K.ord19_manual_request_withdrawn_after_work(P, R, L)
     # a blocking flock turns "already open elsewhere" from an error into an open / destroy that never returns
